@@ -61,11 +61,11 @@ type kv struct {
 	v jv
 }
 
-func jS(s string) jv    { return jv{kind: 's', s: s} }
-func jN(n float64) jv   { return jv{kind: 'n', n: n} }
-func jB(b bool) jv      { return jv{kind: 'b', b: b} }
-func jL(items ...jv) jv { return jv{kind: 'l', l: items} }
-func jM(fields ...kv) jv { return jv{kind: 'm', m: fields} }
+func jS(s string) jv      { return jv{kind: 's', s: s} }
+func jN(n float64) jv     { return jv{kind: 'n', n: n} }
+func jB(b bool) jv        { return jv{kind: 'b', b: b} }
+func jL(items ...jv) jv   { return jv{kind: 'l', l: items} }
+func jM(fields ...kv) jv  { return jv{kind: 'm', m: fields} }
 func f(k string, v jv) kv { return kv{k, v} }
 
 var jNull, jUnset = jv{kind: 'z'}, jv{kind: 'u'}
